@@ -1,24 +1,33 @@
 // Injected (cfg(kani) only) at the end of src/cli/src/main.rs.
 // C12: the process exit status is 1 exactly when the requested operation reported an error.
+// Counter type for the harness statics (Kani 0.68 defect, DESIGN 7.9): liballoc's constant `Cap::ZERO` - 8 zero bytes,
+// alignment 8 - is compiled to a read of ONE static of the program whose initialiser has exactly those bytes and that
+// alignment (which one could not be predicted: neither the first nor the last by name). A `usize` counter initialised to 0
+// is such a static, and once it is incremented every `Vec::new()` has a phantom capacity. Z8 has another size and alignment,
+// so a Z8 static can never be conflated with that constant; env_guard() checks at the end of every CLI harness that
+// fresh containers still have capacity 0.
+#[allow(dead_code)]
+#[repr(C, align(16))]
+pub struct Z8(pub usize);
 #[allow(dead_code, static_mut_refs, unused_imports, unused_variables, unused_mut)]
 pub(crate) mod verif_main {
     use super::*;
     pub static mut TRY_ERR: bool = false;
-    pub static mut EXIT_CALLS: usize = 0;
-    pub static mut EPRINTS: usize = 0;
+    pub static mut EXIT_CALLS: crate::Z8 = crate::Z8(0);
+    pub static mut EPRINTS: crate::Z8 = crate::Z8(0);
     pub fn try_main_model() -> Result<(), anyhow::Error> {
         unsafe { if TRY_ERR { Err(anyhow::Error::msg("failed")) } else { Ok(()) } }
     }
     pub fn exit_model(code: i32) -> ! {
         unsafe {
-            EXIT_CALLS += 1;
+            EXIT_CALLS.0 += 1;
             assert!(TRY_ERR, "[C12] exit(..) is called only when the operation failed");
             assert!(code == 1, "[C12] a failed operation exits with status 1");
         }
         kani::assume(false);
         loop {}
     }
-    pub fn eprint_cut(_a: core::fmt::Arguments<'_>) { unsafe { EPRINTS += 1; } }
+    pub fn eprint_cut(_a: core::fmt::Arguments<'_>) { unsafe { EPRINTS.0 += 1; } }
     pub fn bt_cut() -> std::backtrace::Backtrace { std::backtrace::Backtrace::disabled() }
     pub fn fmtwrite_cut(_o: &mut dyn core::fmt::Write, _a: core::fmt::Arguments<'_>) -> core::fmt::Result { Ok(()) }
     pub fn format_cut(_a: core::fmt::Arguments<'_>) -> String { String::from("F") }
@@ -37,9 +46,10 @@ pub(crate) mod verif_main {
         // main() returned normally => process exit status 0
         unsafe {
             assert!(!TRY_ERR, "[C12] returning normally (exit status 0) happens only when the operation succeeded");
-            assert!(EXIT_CALLS == 0, "[C12] success does not call exit");
+            assert!(EXIT_CALLS.0 == 0, "[C12] success does not call exit");
         }
         kani::cover!(unsafe { !TRY_ERR });
+        crate::keyring::verif_keyring::env_guard();
     }
 
     /// C09/C12: slice_args never panics and returns the tail.
@@ -53,5 +63,6 @@ pub(crate) mod verif_main {
         kani::assume(idx <= 6);
         let s = slice_args(&all[..n], idx);
         assert!(s.len() == if n > idx { n - idx } else { 0 }, "[C09,C12] slice_args returns the remainder after idx, or the empty slice");
+        crate::keyring::verif_keyring::env_guard();
     }
 }
